@@ -342,6 +342,22 @@ pub fn apply(w: &World, s: &mut Store, a: &Action) -> StepResult {
             let mut signers = vec![signer];
             signers.extend(extra_signers(w, s, a));
             let r = crate::svm::process_tx(s, &Tx::one(i, &signers));
+            if !r.ok() {
+                if let Action::Withdraw { u, b, amt, all: true } = a {
+                    // a full withdrawal normally closes the position, so a client leaves its bank out of the risk
+                    // accounts; should the program keep the position open (it must not, having paid it out), the same
+                    // request with the bank still listed is what a client would send next
+                    let (us, bk) = (&w.users[*u], &w.banks[*b]);
+                    let acct = cur_account(w, s, *u);
+                    let mut rem = w.mint_meta(bk);
+                    rem.extend(w.risk_metas(s, &acct, None, None));
+                    let i2 = ix::withdraw(w.group, acct, signer, bk.key, us.tokens[&bk.mint], bk.token_program, *amt, Some(true), rem);
+                    let r2 = crate::svm::process_tx(s, &Tx::one(i2, &signers));
+                    if r2.ok() {
+                        return StepResult { code: 0, committed: true };
+                    }
+                }
+            }
             StepResult { code: r.code(), committed: r.ok() }
         }
     }
